@@ -183,7 +183,11 @@ def main(argv=None):
     if not samples and cases:
         samples.append({"spec": cases[-1], "observed": None})
 
-    open_known = {k["mechanism"]: k for k in known if k.get("status", "open") == "open"}
+    open_known = {}
+    for k in known:
+        if k.get("status", "open") == "open":
+            for mname in [k["mechanism"]] if "mechanism" in k else k["mechanisms"]:
+                open_known[mname] = k
     lines = []
     new_violations = 0
     known_seen = {}
@@ -207,9 +211,15 @@ def main(argv=None):
             lines.append(f"VIOLATION property={prop} replay={path}")
             lines.append(f"  mechanism={mech} clause={v['clause']} detail={json.dumps(v['detail'], default=repr)[:600]}")
         new_violations += len(lst)
+    done_ids = set()
     for mech, k in open_known.items():
-        if mech in known_seen:
-            print(f"KNOWN-FINDING: property={prop} {k['what']} [{k['id']}; seen {known_seen[mech]}x]")
+        if k["id"] in done_ids:
+            continue
+        done_ids.add(k["id"])
+        names = [k["mechanism"]] if "mechanism" in k else k["mechanisms"]
+        seen_n = sum(known_seen.get(n_, 0) for n_ in names)
+        if seen_n:
+            print(f"KNOWN-FINDING: property={prop} {k['what']} [{k['id']}; seen {seen_n}x]")
         else:
             print(f"NOTE property={prop} known finding {k['id']} did not reproduce in this run")
     for ln in lines:
